@@ -15,6 +15,7 @@ var badOpNames = []string{"", "and", "Equals", "UNDEFINED", "XOR", "MUSTNOT", " 
 var jsonLeaves = []string{
 	`"a"`, `"b c"`, `""`, `"*"`, `"a*"`, `"?"`, `"/x/"`, `"/"`, `"//"`, `"/a*b/"`, `"/a\\\\/"`, `"/a\\/"`, `5`, `-3`, `0`, `1.5`, `1e5`, `1e400`, `-0`, `1.0`, `5.0`, `null`, `true`, `false`,
 	`"NaN"`, `"min"`, `"\"min\":"`, `"\"left\":"`, `"it's"`, `"ü"`, `"\u0000"`, `"\ud800"`, `9223372036854775807`, `9223372036854775808`, `1e-320`, `"[1, 2]"`, `"x,y"`, `"'*'"`, `"(a"`, `"%"`, `"_"`,
+	`{"min":1,"max":2,"inclusive":true}`, `{"max":5,"extra":{"min":1}}`, `{"min":1,"x":{"max":2}}`, `{"min":1}`, `{"max":"z"}`, `{"min":null,"max":null}`, `{"max":5,"x":"\"min\":"}`, `{"min":"*","max":"*"}`,
 }
 
 // JSONGen builds schema-aware expression documents.
